@@ -49,6 +49,14 @@ def stepVarInt (args : List String) : Option String :=
     match VarInt.decode bs with
     | some (v, r) => some s!"ok {v} {r.length}"
     | none => some "eof"
+  | ["vi.decr", h, k] => do
+    -- the same decoder behind a reader that hands out at most `k ≥ 1` bytes per `read` call: `read_exact`
+    -- loops, so the result is the same function of the bytes
+    let bs ← bytesOfHex h
+    let _ ← natArg k
+    match VarInt.decode bs with
+    | some (v, r) => some s!"ok {v} {r.length}"
+    | none => some "eof"
   | ["vi.enc", n] => do
     let v ← natArg n
     some (hexOfBytes (VarInt.encode v))
@@ -571,7 +579,8 @@ def stepRun (args : List String) : Option String :=
     let c : Run.Conn := { phase := .parseReq (Req.Parser.new b mc) .start,
                           env := { tr := { input := [], endMode, rd, wr, fl, abortKind := (kv rest "ek") == some "a" }, segs := segs }, scripts := hs }
     let (c, fin) := Run.runTask 100000 c 0 stopAt
-    let evs := String.intercalate " " c.env.tr.events
+    let gate := (kv rest "gt") == some "1" && stopAt.isNone
+    let evs := String.intercalate " " (if gate then Run.gateTrace c.env.tr.events fin else c.env.tr.events)
     some s!"{evs} {fin} wlog={hexOrDash c.env.tr.wlog}"
   | _ => none
 
